@@ -17,6 +17,10 @@ Oracles (each with its own key):
                  earlier composites) and uses (pass_spatial_data, estimate_hyperpar_bounds, evaluations) every live object keeps
                  exactly the n_params / labels / bounds / value / gradients of a freshly built object of its own expression
                  (history/<family of the changed object>/<attribute>/exposed-by:<operation kind>)
+  extreme/..     extreme-but-legal regimes (change-point widths 1e-6..1e2 data ranges, locations at / beyond the data edges, length-scales
+                 1e-3..1e3 ranges, amplitudes exp(+-10), points >= 1e3 widths from the change-point): results finite, values and gradients
+                 equal the documented formula in mpmath entry by entry (extreme/<family>/<what>/non-finite, ../builder-vs-formula-offdiag,
+                 ../call-vs-formula, ../block-vs-formula, extreme/<owner>/gradient-<kind>, sym / psd / diagonal terms)
 """
 import json
 
@@ -522,6 +526,332 @@ def ev_selftest(case):
     return {"fails": [], "n": 0, "tags": {"selftest"}}
 
 
+# ------------------------------------------------------------------------------------------ extreme-but-legal regimes
+# Lattice: {kernel} x {change-point width / data range} x {change-point location: inside, at the lower / upper data edge,
+# one range below / above the data} x {length-scale / range} x {amplitude level}; the data then lie up to 1e6 widths from
+# the change-point, and the rectangular blocks add query points exactly 1e3 and 2e3 widths from it and two ranges outside
+# the data.  Reference: the documented formulas in mpmath (50 digits) for the values, mpmath complex step (h = 1e-40) for
+# the partial derivatives.  Tolerances are entry-wise, from the rounding of the documented formula:
+#   a leaf value A^2 g(Z) carries the relative error kappa eps, kappa = 1 + Z (SE), 1 + alpha + alpha ln(1 + Z/alpha) (RQ);
+#   a logistic weight f or 1 - f carries an ABSOLUTE error eps (1 - f cancels; |z| f (1-f) <= 0.23), so a change-point
+#   entry carries  eps * sum_leaves Kbare_leaf(u,v) (kappa_leaf + number of weight factors);
+#   d f / d c = -f(1-f)/w carries eps / w absolutely, d f / d w = z d f / d c carries 40 eps / w (z e^-z where f rounds to 1).
+EXT_KERNELS = [
+    ["cp", 0, "SE", "SE"],
+    ["cp", 0, "SE", "RQ"],
+    ["cp", 0, "SE", "SE", "SE"],
+    ["cp", 0, ["add", "SE", "WN"], "RQ"],
+    ["cp", 0, "SE", ["cp", 0, "RQ", "SE"]],
+    ["add", ["cp", 0, "RQ", "SE"], "WN"],
+    ["cp", 1, "SE", "RQ"],
+    "SE",
+    "RQ",
+    ["add", "SE", "RQ", "WN"],
+]
+EXT_WIDTHS = [1.0, 1e-2, 1e2, 1e-4, 1e-6]  # in units of the data range along the change-point axis, simplest first
+EXT_LOCS = ["inside", "lower-edge", "upper-edge", "below", "above"]
+EXT_SCALES = [1.0, 1e-3, 1e3]  # length-scale / data range
+EXT_AMPS = ["pattern", "+10", "-10", "mixed"]
+EXT_H = R.mpf(10) ** (-40)
+EXT_FLOOR = 1e-300
+
+
+def ext_theta(spec, X, pattern, reg):
+    """hyper-parameters of the regime: the pattern vector with the regime's levels written over it"""
+    n, d = X.shape
+    theta = R.theta_for(spec, X, pattern)
+    lo, hi = X.min(axis=0), X.max(axis=0)
+    rng = np.where(hi > lo, hi - lo, 1.0)
+    leafno = {}
+    for p, inf in enumerate(R.param_info(spec, n, d)):
+        kd = inf["kind"]
+        if kd == "log-amplitude":
+            j = leafno.setdefault(inf["path"], len(leafno))
+            if reg["amp"] != "pattern":
+                theta[p] = {"+10": 10.0, "-10": -10.0, "mixed": 10.0 if j % 2 == 0 else -10.0}[reg["amp"]]
+        elif kd == "log-scale":
+            theta[p] = float(np.log(reg["ls"] * rng[inf["dim"]])) + 0.05 * inf["dim"]
+        elif kd == "cp-location":
+            ax = reg["axis_of"][inf["path"]]
+            if inf["cp"] == 0:
+                l_, h_, r_ = float(lo[ax]), float(hi[ax]), float(rng[ax])
+                theta[p] = {"inside": theta[p], "lower-edge": l_, "upper-edge": h_, "below": l_ - r_, "above": h_ + r_}[reg["loc"]]
+        elif kd == "cp-width":
+            theta[p] = reg["w"] * float(rng[reg["axis_of"][inf["path"]]])
+    return theta
+
+
+def ext_axes(spec, path=""):
+    """{path of a change-point node: its axis}; paths as in R.param_info"""
+    if isinstance(spec, str):
+        return {}
+    here = path + spec[0]
+    out = {here: spec[1]} if spec[0] == "cp" else {}
+    for j, c in enumerate(R.children(spec)):
+        out.update(ext_axes(c, f"{here}{j}>"))
+    return out
+
+
+def ext_leaves(spec, n, d, path="", pos=0, nf=0):
+    """[(leaf kind, first parameter, path, number of weight factors on it)] in parameter order"""
+    k = R.kind(spec)
+    here = path + k
+    if k in R.LEAVES:
+        return [(k, pos, here, nf)]
+    out = []
+    for j, c in enumerate(R.children(spec)):
+        out += ext_leaves(c, n, d, f"{here}{j}>", pos, nf + (4 if k == "cp" else 0))
+        pos += R.n_params(c, n, d)
+    return out
+
+
+def ev_extreme(case):
+    spec, n, d, reg = case["spec"], case["n"], case["d"], dict(case["regime"])
+    X = R.design(case["design"], n, d, case["seed"])
+    reg["axis_of"] = ext_axes(spec)
+    theta = ext_theta(spec, X, case["pattern"], reg)
+    name, fam = R.spec_name(spec), R.family(spec)
+    info = R.param_info(spec, n, d)
+    P = len(info)
+    fails, seen, tags, slack, skipped, nev = [], {}, set(), {}, {}, 0
+    det = dict(kernel=name, n=n, d=d, design=case["design"], pattern=case["pattern"], regime=case["regime"], theta=theta, X=X)
+
+    def bad(key, what, **kw):
+        seen[key] = seen.get(key, 0) + 1
+        if seen[key] == 1:
+            fails.append(fail(key, what, **det, **kw))
+
+    def sl(key, err, tol):
+        with np.errstate(all="ignore"):
+            r = float(np.max(np.asarray(err, float) / np.asarray(tol, float)))
+        r = r if r == r else float("inf")
+        if r > slack.get(key, -1.0):
+            slack[key] = r
+        return r
+
+    # ------------------------------------------------------------------ points: the data, and a block of query points
+    cpn = [p for p, inf in enumerate(info) if inf["kind"] == "cp-location" and inf["cp"] == 0]
+    lo, hi = X.min(axis=0), X.max(axis=0)
+    rng = np.where(hi > lo, hi - lo, 1.0)
+    U = [X[0].copy(), lo - 2.0 * rng, hi + 2.0 * rng]
+    if cpn:
+        p0 = cpn[0]
+        ax = reg["axis_of"][info[p0]["path"]]
+        c0, w0 = float(theta[p0]), float(theta[p0 + 1])
+        for mult in (1e3, -1e3, 2e3, -2e3, 0.5):
+            q = X[n // 2].copy()
+            q[ax] = c0 + mult * w0
+            U.append(q)
+    U = np.array(U)
+
+    # ------------------------------------------------------------------ reference (mpmath) and entry-wise bounds
+    th_mp = [R.mpf(float(t)) for t in theta]
+    fval = R.bind(R.MB, spec, th_mp, n, d)
+    fder = []
+    for p in range(P):
+        tp = list(th_mp)
+        tp[p] = R.mp.mpc(th_mp[p], EXT_H)
+        fder.append(R.bind(R.MCB, spec, tp, n, d))
+    PX, PU = R._pts(R.MB, X), R._pts(R.MB, U)
+
+    def ref_matrix(PA, PB, same, with_grads):
+        na, nb = len(PA), len(PB)
+        K = np.zeros((na, nb))
+        G = [np.zeros((na, nb)) for _ in range(P)] if with_grads else []
+        for i in range(na):
+            for j in range(i if same else 0, nb):
+                K[i, j] = float(fval(PA[i], PB[j], i, j, same))
+                for p in range(P if with_grads else 0):
+                    G[p][i, j] = float(fder[p](PA[i], PB[j], i, j, same).imag / EXT_H)
+                if same:
+                    K[j, i] = K[i, j]
+                    for p in range(P if with_grads else 0):
+                        G[p][j, i] = G[p][i, j]
+        return K, G
+
+    Kref, Gref = ref_matrix(PX, PX, True, True)
+    Kpref, _ = ref_matrix(PX, PX, False, False)
+    Kuref, _ = ref_matrix(PU, PX, False, False)
+    # harness self-test: complex step against a 50-digit central difference at one off-diagonal entry
+    hh = R.mpf(10) ** (-22)
+    i_, j_ = 0, n - 1
+    for p in range(P):
+        tp, tm = list(th_mp), list(th_mp)
+        tp[p], tm[p] = th_mp[p] + hh, th_mp[p] - hh
+        cd = (R.bind(R.MB, spec, tp, n, d)(PX[i_], PX[j_], i_, j_, True) - R.bind(R.MB, spec, tm, n, d)(PX[i_], PX[j_], i_, j_, True)) / (2 * hh)
+        cs = fder[p](PX[i_], PX[j_], i_, j_, True).imag / EXT_H
+        f0 = R.mpf(sum(amp_sum(spec, theta, n, d)))  # the difference quotient carries 1e-50 (sum of A^2) / h (weights 1 - f cancel)
+        if abs(cd - cs) > R.mpf(10) ** (-12) * max(abs(cd), abs(cs)) + R.mpf(10) ** (-25) * f0 + R.mpf(10) ** (-280):
+            raise HarnessError(f"extreme reference: complex step {cs} vs central difference {cd} for {name} parameter {p}")
+
+    leaves = ext_leaves(spec, n, d)
+
+    def bounds(A, B, same):
+        """(value bound, [gradient bound per parameter], bare-leaf sum) in units of eps, entry-wise on A x B"""
+        A, B = np.asarray(A, float), np.asarray(B, float)
+        na, nb = A.shape[0], B.shape[0]
+        eye = (np.eye(na, nb) if same else np.zeros((na, nb)))
+        V = np.zeros((na, nb))
+        bare_sum = np.zeros((na, nb))
+        per_leaf = {}
+        gb = [None] * P
+        for kd, pos, path, nf in leaves:
+            if kd in ("WN", "HN"):
+                s2 = np.exp(2 * theta[pos : pos + (1 if kd == "WN" else n)])
+                Sg = eye * (s2[0] if kd == "WN" else 0.0)
+                if kd == "HN" and same:
+                    Sg = np.diag(s2)
+                T = Sg * (2.0 + nf)
+                for q in range(1 if kd == "WN" else n):
+                    E = Sg if kd == "WN" else (np.diag(np.eye(n)[q] * s2[q]) if same else np.zeros((na, nb)))
+                    gb[pos + q] = 2.0 * E * (2.0 + nf)
+            else:
+                off = 1 if kd == "SE" else 2
+                ls = np.exp(theta[pos + off : pos + off + d])
+                r2 = ((A[:, None, :] - B[None, :, :]) / ls[None, None, :]) ** 2
+                Z = 0.5 * r2.sum(axis=2)
+                a2 = float(np.exp(2 * theta[pos]))
+                with np.errstate(all="ignore"):
+                    if kd == "SE":
+                        bare = a2 * np.exp(-Z)
+                        kap = 1.0 + Z
+                    else:
+                        al = float(np.exp(theta[pos + 1]))
+                        F = 1.0 + Z / al
+                        bare = a2 * F ** (-al)
+                        kap = 1.0 + al + al * np.log(F)
+                        gb[pos + 1] = bare * (kap + nf + 1.0) * (al + al * np.log(F) + Z / F)
+                T = bare * (kap + nf)
+                gb[pos] = 2.0 * T
+                for q in range(d):
+                    gb[pos + off + q] = bare * r2[:, :, q] * (kap + nf + 3.0)
+                bare_sum += bare
+            V += T
+            per_leaf[path] = T
+        for p, inf in enumerate(info):
+            if inf["kind"] in ("cp-location", "cp-width"):
+                q = inf["cp"]
+                w = abs(float(theta[p + 1] if inf["kind"] == "cp-location" else theta[p]))
+                S = sum(T for path, T in per_leaf.items() if path.startswith(f"{inf['path']}{q}>") or path.startswith(f"{inf['path']}{q + 1}>"))
+                gb[p] = (1.0 if inf["kind"] == "cp-location" else 40.0) * S / w
+        return V, gb, bare_sum
+
+    Vx, Gx, bare_x = bounds(X, X, True)
+    Vp, _, _ = bounds(X, X, False)
+    Vu, _, _ = bounds(U, X, False)
+    D = float(np.abs(Kref).max())
+    tolx, tolp, tolu = 64 * EPS * Vx + EXT_FLOOR * max(1.0, D), 64 * EPS * Vp + EXT_FLOOR * max(1.0, D), 64 * EPS * Vu + EXT_FLOOR * max(1.0, D)
+    th_before, X_before = theta.copy(), X.copy()
+
+    # ------------------------------------------------------------------ the real code
+    k = R.make_kernel(spec)
+    res = {}
+    with np.errstate(all="ignore"):  # floating-point warnings (exp overflow to inf giving the correct limit 0) are not failures
+        with lib("pass_spatial_data"):
+            k.pass_spatial_data(X)
+        for what, call in (
+            ("build_covariance", lambda: k.build_covariance(theta)),
+            ("call(x,x)", lambda: k(X, X, theta)),
+            ("call(u,x)", lambda: k(U, X, theta)),
+            ("call(x,u)", lambda: k(X, U, theta)),
+            ("covariance_and_gradients", lambda: k.covariance_and_gradients(theta)),
+        ):
+            try:
+                with lib(what):
+                    res[what] = call()
+                nev += 1
+            except LibFailure as e:
+                bad(f"extreme/{pcls(spec, d)}/{what}/raises:{e.exc_type}", f"{name}: {what} raised {e}", traceback=e.tb)
+    if not np.array_equal(theta, th_before) or not np.array_equal(X, X_before):
+        bad(f"extreme/{fam}/inputs-modified", f"{name}: theta or x modified in place")
+    off = ~np.eye(n, dtype=bool)
+
+    def finite(what, arr, shape):
+        arr = np.asarray(arr, dtype=float)
+        if arr.shape != shape:
+            bad(f"extreme/{fam}/{what}/shape", f"{name}: {what} has shape {arr.shape}, expected {shape}")
+            return None
+        if not np.isfinite(arr).all():
+            idx = np.argwhere(~np.isfinite(arr))[0].tolist()
+            bad(f"extreme/{fam}/{what}/non-finite", f"{name}: {what} has {int((~np.isfinite(arr)).sum())} non-finite entries (first at {idx}: {arr[tuple(idx)]!r}); the documented formula gives finite values everywhere")
+            return None
+        return arr
+
+    Kb = finite("build_covariance", res["build_covariance"], (n, n)) if "build_covariance" in res else None
+    if Kb is not None:
+        diff = Kb - Kref
+        if n > 1 and sl("extreme/builder-offdiag", np.abs(diff[off]), tolx[off]) > 1:
+            w_ = np.unravel_index(np.argmax(np.where(off, np.abs(diff) / tolx, 0)), diff.shape)
+            bad(f"extreme/{fam}/builder-vs-formula-offdiag", f"{name}: build_covariance[{w_}] = {Kb[w_]!r}, documented formula {Kref[w_]!r} (tol {tolx[w_]:.3e})")
+        dj = np.diag(diff)
+        jmax = JIT * np.diag(Kpref)
+        tj = np.diag(tolx)
+        if (dj < -tj).any() or (dj > jmax + tj).any():
+            bad(f"extreme/{fam}/builder-diagonal-terms", f"{name}: diag(K_builder) - (formula + noise variances) = {dj.tolist()} not in [0, 1e-10*K_ii]={jmax.tolist()}")
+        e = float(np.abs(Kb - Kb.T).max())
+        if sl("extreme/sym-builder", e, 4 * EPS * D + EXT_FLOOR) > 1:
+            bad(f"extreme/{fam}/sym-builder", f"{name}: build_covariance asymmetric by {e:.3e}")
+        lam = float(np.linalg.eigvalsh(0.5 * (Kb + Kb.T)).min())
+        tl = float(np.linalg.norm(tolx)) + 64 * n * EPS * D
+        if sl("extreme/psd-builder", max(0.0, -lam), tl) > 1:
+            bad(f"extreme/{fam}/psd-builder", f"{name}: lambda_min of build_covariance = {lam:.3e} (tol {tl:.2e})")
+    Kp = finite("call(x,x)", res["call(x,x)"], (n, n)) if "call(x,x)" in res else None
+    if Kp is not None:
+        if sl("extreme/call-vs-formula", np.abs(Kp - Kpref), tolp) > 1:
+            w_ = np.unravel_index(np.argmax(np.abs(Kp - Kpref) / tolp), Kp.shape)
+            bad(f"extreme/{fam}/call-vs-formula", f"{name}: __call__(x,x)[{w_}] = {Kp[w_]!r}, documented formula {Kpref[w_]!r} (tol {tolp[w_]:.3e})")
+        e = float(np.abs(Kp - Kp.T).max())
+        if sl("extreme/sym-call", e, 4 * EPS * D + EXT_FLOOR) > 1:
+            bad(f"extreme/{fam}/sym-call", f"{name}: __call__(x,x) asymmetric by {e:.3e}")
+        lam = float(np.linalg.eigvalsh(0.5 * (Kp + Kp.T)).min())
+        tl = float(np.linalg.norm(tolp)) + 64 * n * EPS * D
+        if sl("extreme/psd-call", max(0.0, -lam), tl) > 1:
+            bad(f"extreme/{fam}/psd-call", f"{name}: lambda_min of __call__(x,x) = {lam:.3e} (tol {tl:.2e})")
+    m = U.shape[0]
+    Ku = finite("call(u,x)", res["call(u,x)"], (m, n)) if "call(u,x)" in res else None
+    Kut = finite("call(x,u)", res["call(x,u)"], (n, m)) if "call(x,u)" in res else None
+    for what, arr, ref_, tol_ in (("call(u,x)", Ku, Kuref, tolu), ("call(x,u)", Kut, Kuref.T, tolu.T)):
+        if arr is not None and sl("extreme/block-vs-formula", np.abs(arr - ref_), tol_) > 1:
+            w_ = np.unravel_index(np.argmax(np.abs(arr - ref_) / tol_), arr.shape)
+            bad(f"extreme/{fam}/block-vs-formula", f"{name}: {what}[{w_}] = {arr[w_]!r}, documented formula {ref_[w_]!r} (tol {tol_[w_]:.3e}); query points {U.tolist()}")
+    if "covariance_and_gradients" in res:
+        cg = res["covariance_and_gradients"]
+        Kg = finite("covariance_and_gradients-value", cg[0], (n, n))
+        if Kg is not None and Kb is not None and sl("extreme/gradK-vs-builder", np.abs(Kg - Kb), 2 * tolx) > 1:
+            bad(f"extreme/{fam}/gradient-value-differs-from-builder", f"{name}: covariance_and_gradients K differs from build_covariance by {float(np.abs(Kg - Kb).max()):.3e}")
+        grads = list(cg[1])
+        if len(grads) != P:
+            bad(f"extreme/{fam}/gradient-count", f"{name}: {len(grads)} gradient matrices for {P} parameters")
+        else:
+            for p, (g, gr, inf) in enumerate(zip(grads, Gref, info)):
+                key = f"extreme/{inf['owner']}/gradient-{inf['kind']}"
+                g = finite(f"gradient-{inf['kind']}", g, (n, n))
+                if g is None:
+                    continue
+                if not np.isfinite(gr).all():
+                    skipped["reference derivative not representable in a double"] = skipped.get("reference derivative not representable in a double", 0) + 1
+                    continue
+                gscale = float(np.abs(gr).max())
+                tg = 256 * EPS * Gx[p] + EXT_FLOOR * max(1.0, gscale)
+                if inf["kind"] in ("cp-location", "cp-width"):
+                    mult = 1.0 / abs(float(theta[p + 1] if inf["kind"] == "cp-location" else theta[p]))
+                else:
+                    mult = 2.0 if inf["kind"] == "log-amplitude" else 1.0
+                tg = tg + np.eye(n) * 2 * JIT * (np.abs(gr) + mult * bare_x)
+                r = sl(f"extreme/gradient/{inf['kind']}", np.abs(g - gr), tg)
+                if r > 1:
+                    w_ = np.unravel_index(np.argmax(np.abs(g - gr) / tg), g.shape)
+                    bad(key, f"{name}: gradient w.r.t. parameter {p} ({inf['kind']} of {inf['path']}) at [{w_}] = {g[w_]!r}, true partial derivative {gr[w_]!r} (tol {tg[w_]:.3e})", param=p)
+    far_w = 0.0
+    if cpn:
+        far_w = float(np.abs(X[:, ax] - c0).max() / abs(w0))
+    tags.add(f"extreme:{name},w={reg['w']:g},loc={reg['loc']},ls={reg['ls']:g},amp={reg['amp']},d={d}")
+    if cpn:
+        tags.add(f"extreme:data up to 1e{int(np.floor(np.log10(max(far_w, 1.0))))} widths from the change-point, loc={reg['loc']}")
+    return {"fails": fails[:30], "n": nev, "tags": tags, "slack": slack, "skipped": skipped,
+            "sample": {"kernel": name, "regime": case["regime"], "theta": theta.tolist(), "max_distance_in_widths": far_w}}
+
+
 # ------------------------------------------------------------------------------------------ composition histories
 # A history is a sequence of operations on ONE pool of live objects that starts with the leaf kernels:
 #   ["add", i, j]   pool.append(pool[i] + pool[j])                     (either operand may be an earlier composite)
@@ -889,7 +1219,7 @@ def hist_prefixes(leaves, builders, observe, length):
 
 HIST_LEAVES = [["SE", "WN", "RQ"], ["RQ", "SE", "HN"], ["SE", "SE", "WN"], ["WN", "RQ", "SE"], ["RQ", "RQ", "SE"], ["SE", "HN", "SE"]]
 
-EVALUATORS = {"kernel": ev_kernel, "userbounds": ev_userbounds, "mean": ev_mean, "selftest": ev_selftest, "history": ev_history}
+EVALUATORS = {"kernel": ev_kernel, "userbounds": ev_userbounds, "mean": ev_mean, "selftest": ev_selftest, "history": ev_history, "extreme": ev_extreme}
 
 
 def run(ck):
@@ -938,6 +1268,24 @@ def run(ck):
                 continue
             st.append({"spec": spec, "n": 3 if quick else 4, "d": d, "pattern": (ki + seed) % 3, "seed": seed})
     ck.run_cases("selftest", st)
+    # ---- extreme-but-legal hyper-parameter regimes (simplest first: unit width / inside / unit scale / pattern amplitudes)
+    xcases = []
+    for ki, spec in enumerate(EXT_KERNELS):
+        iscp = R.max_cp_kernels(spec) > 0
+        dmin = needs_axis(spec) + 1
+        variants = [(4, max(dmin, 1 + (ki + seed) % 2), "regular")] if quick else [(4, max(dmin, 1 + (ki + seed) % 2), "regular"), (5, max(dmin, 2 - (ki + seed) % 2), "permuted")]
+        for n, d, des in variants:
+            for wi, w in enumerate(EXT_WIDTHS if iscp else [1.0]):
+                for li, loc in enumerate(EXT_LOCS if iscp else ["inside"]):
+                    for si, ls in enumerate(EXT_SCALES):
+                        for ai, amp in enumerate(EXT_AMPS):
+                            if quick and iscp and (si, ai) != ((wi + li + seed) % 3, (wi + 2 * li + ki + seed) % 4):
+                                continue
+                            xcases.append({"spec": spec, "n": n, "d": d, "design": des, "pattern": (ki + wi + seed) % 9, "seed": seed,
+                                           "regime": {"w": w, "loc": loc, "ls": ls, "amp": amp}})
+    ck.run_cases("extreme", xcases)
+    ck.extra["extreme_regimes"] = {"kernels": [R.spec_name(s) for s in EXT_KERNELS], "width_over_range": EXT_WIDTHS, "location": EXT_LOCS,
+                                   "length_scale_over_range": EXT_SCALES, "log_amplitude": EXT_AMPS, "cases": len(xcases)}
     # ---- composition histories: every sequence of <= depth operations on one pool of live objects
     hnd = [(3, 1), (4, 2), (3, 2), (4, 1)]
     L2 = [["SE", "WN"], ["RQ", "SE"], ["SE", "SE"], ["SE", "HN"]]
@@ -979,9 +1327,22 @@ def run(ck):
         "says so and at the end (observe=final), and again after all objects were re-given the data and after bounds were estimated for all, every "
         "live object must have exactly (bit for bit) the n_params, labels, bounds, build_covariance, covariance_and_gradients and __call__ results "
         "of a freshly built object of its own expression (itself checked against the documented formula); hyper-parameters alternate between two "
-        "patterns along the history. A history is counted by its sequence of operation kinds, whether it re-uses a composite, and the observation mode"
-        % len(KERNELS)
+        "patterns along the history. A history is counted by its sequence of operation kinds, whether it re-uses a composite, and the observation mode. "
+        "Extreme regimes (keys extreme/..): {%d kernels: change-points with 2 and 3 kernels, nested, summed with noise, on axis 0/1, and SE, RQ, SE+RQ+WN} x "
+        "{change-point width 1e-6, 1e-4, 1e-2, 1, 1e2 data ranges} x {location inside, at the lower / upper data edge, one range below / above the data} x "
+        "{length-scale 1e-3, 1, 1e3 ranges} x {log-amplitudes from the pattern, all +10, all -10, alternating +-10} (thorough: the full product on two point sets; "
+        "quick: every (width, location) with a rotating (length-scale, amplitude) pair, all 12 pairs for the kernels without change-point), so the data lie up to 1e6 "
+        "widths from the change-point; build_covariance, __call__(x,x), covariance_and_gradients and the blocks __call__(u,x), __call__(x,u) with query points exactly "
+        "1e3 and 2e3 widths either side of the change-point and two ranges outside the data must be finite and equal, entry by entry, the documented formula "
+        "(mpmath, 50 digits) and its partial derivatives (mpmath complex step, itself checked against a central difference in every case) within the rounding of "
+        "the documented formula; a regime is distinct by (kernel, width, location, length-scale, amplitude, d)"
+        % (len(KERNELS), len(EXT_KERNELS))
     )
+    ck.assume("extreme regimes: floating-point warnings (exp overflowing to inf where the weight's limit 0 or 1 is correct) are not failures, non-finite results are; the entry-wise "
+              "tolerance is that of the documented formula evaluated term by term in doubles: relative (1 + Z) eps for a squared-exponential, (1 + alpha + alpha ln(1+Z/alpha)) eps for a "
+              "rational-quadratic leaf value, ABSOLUTE eps for each logistic weight f and 1 - f (so where two regions differ by more than 1/eps in amplitude the smaller one is only "
+              "checked to the larger one's rounding), eps/w and 40 eps/w for the weight's derivatives w.r.t. location and width; gradients are compared wherever the reference "
+              "derivative is a finite double (others are skipped and counted); values below 1e-300 are compared absolutely")
     ck.assume("continuous inputs are represented by the listed deterministic point designs (n <= 8, d <= 3) and three levels per hyper-parameter block")
     ck.assume("jitter: any diagonal addition in [0, 1e-10*K_ii] is accepted as the documented 'small values added to the diagonal'; its exact size is not pinned")
     ck.assume("labels: a composite may prefix the component's label (suffix match accepted); mean functions may expand about the data centroid or the origin")
